@@ -61,6 +61,9 @@ def tree(fp_kind, ei, style, f_l, f_e, al_l, al_e, ds_l, ds_e, has_doc, labels, 
         mod._filepath = Path.cwd() / "pkg" / "m.py"
     elif fp_kind == 1:
         mod._filepath = [Path.cwd() / "a" / "m", Path.cwd() / "b" / "m"]  # a namespace package inside the working directory
+    # objects and aliases that only exist for type checkers (`if TYPE_CHECKING:` imports / definitions): runtime=False
+    mod.set_member("tg_alias", Alias("tg_alias", "typing.Iterator", lineno=1, endlineno=1, runtime=False))
+    mod.set_member("tg_attr", Attribute("tg_attr", lineno=1, endlineno=1, runtime=False))
     if has_doc:
         for o in (mod.members["f"], mod.members["C"]):
             o.docstring.value = DOCS[style]
@@ -98,7 +101,7 @@ def _make(group, free, combos, focus):
     @obligation(
         pid="C09", name=f"schema_{group}", pre=_pre, shards=shards, timeout=tiered(280, 1200), path_timeout=60.0,
         drives=[JSONEncoder.default, Object.as_dict, Alias.as_dict, Module.as_dict, Class.as_dict, Function.as_dict, Attribute.as_dict, Docstring.as_dict, DocstringSection.as_dict],
-        bounds={"tree": "the C08 tree, full=True", "free fields in this group": list(free), "line numbers": "None, 0, 1", "module filepath": "regular file / namespace package (list) inside the cwd",
+        bounds={"tree": "the C08 tree plus a type-guarded alias and attribute (runtime=False), full=True", "free fields in this group": list(free), "line numbers": "None, 0, 1", "module filepath": "regular file / namespace package (list) inside the cwd",
                 "docstring styles": STYLES, "expression shapes": sorted({MENU[ei][0] for _, ei, _ in combos})},
         value_symbolic=list(free), selectors=["module filepath kind, expression shape, docstring style (driver-bound)"],
         stubs=STUBS + [f"schema read from {SCHEMA_PATH} at run time; jsonschema validation runs outside the tracer on the realised document"],
